@@ -106,6 +106,7 @@ CHECKS = {
     "C15": {
         "parts": [
             {"test": "TestC15Gaps", "rapid": False, "quick": 0, "thorough": 0, "shards": 16, "quick_shards": 8},
+            {"test": "TestC15Long", "rapid": False, "quick": 0, "thorough": 0, "shards": 16, "quick_shards": 4},
             {"test": "TestC15Random", "quick": 5000, "thorough": 20000, "shards": 16, "quick_shards": 2},
         ],
         "assumptions": ["layout soundness rules: nothing only between tokens that do not fuse, no comment glued to a preceding '-', comment bodies without newline / ')--'"],
@@ -113,6 +114,7 @@ CHECKS = {
     "C16": {
         "parts": [
             {"test": "TestC16Table", "rapid": False, "quick": 0, "thorough": 0, "shards": 1},
+            {"test": "TestC16Long", "rapid": False, "quick": 0, "thorough": 0, "shards": 8, "quick_shards": 4},
             {"test": "TestC16Random", "quick": 20000, "thorough": 200000, "shards": 16},
         ],
         "assumptions": ["ASCII bytes 0x01..0x7f only"],
@@ -156,6 +158,7 @@ CHECKS = {
     "C20": {
         "parts": [
             {"test": "TestC20Table", "rapid": False, "quick": 0, "thorough": 0, "shards": 1},
+            {"test": "TestC20Wide", "rapid": False, "quick": 0, "thorough": 0, "shards": 8, "quick_shards": 4},
             {"test": "TestC20Trees", "quick": 3000, "thorough": 5000, "shards": 16},
         ],
         "assumptions": ["star-only directory segments and ./.. segments excluded as the property says; paths compared after filepath.Clean"],
